@@ -95,6 +95,24 @@ def _server_side(dt):
 
 
 def run_e2e(case):
+    """The end-to-end run uses real sockets, threads and the client's real 10 s reply time-out.  On a starved machine
+    a reply can come too late; a run in which a time-out occurred says nothing about the property, so it is repeated
+    (a reproducible time-out is still reported by the oracle after the third attempt)."""
+    obs = None
+    for attempt in range(3):
+        try:
+            obs = _run_e2e_once(case)
+        except (TimeoutError, ConnectionError, OSError):
+            if attempt == 2:
+                raise
+            continue
+        excs = [o['exc'] for o in obs['writes'] + obs['reads'] if o['exc']]
+        if not any(e.startswith(('TimeoutError', 'ConnectionError')) for e in excs):
+            break
+    return obs
+
+
+def _run_e2e_once(case):
     from harness.props import C12 as P
     import frappy.secnode
     from frappy.secnode import SecNode
